@@ -10,6 +10,8 @@ import JT.Model.Codec
 import JT.Model.Act
 import JT.Model.Registry
 import JT.Model.Attach
+import JT.Model.Path
+import JT.Gen.SaveGuard
 /-!
 Line-protocol driver: one operation per input line, one result line per operation.
 `<idx> <op> <args…>` ↦ `<idx> <result>`.
@@ -369,6 +371,31 @@ def run (files events : String) : String :=
       s!"replies=[{",".intercalate (rs.map showReply)}] files=[{",".intercalate fstr}]"
 end AttSim
 
+/-! C19: which announced names are stored where, by the regenerated guard and the path model -/
+namespace ConfineSim
+open JT JT.Path
+
+def joinSlash (l : List Bytes) : Bytes := (l.intersperse [slash]).flatten
+
+def run (phone files : String) : String :=
+  match ofHex phone, (files.splitOn ";").mapM (fun p => match p.splitOn ":" with | [n, _] => ofHex n | _ => none) with
+  | some bcd, some names =>
+    -- the harness's working directory below its scratch root: w1/w2/w3/w4/cwd
+    let cwd : List Bytes := [[0x77, 0x31], [0x77, 0x32], [0x77, 0x33], [0x77, 0x34], [0x63, 0x77, 0x64]]
+    let ph := phoneStr bcd
+    let outs := names.filterMap (fun nm =>
+      if Gen.SaveGuard.skip nm then none else
+      match resolve cwd (savePath ph (Gen.SaveGuard.stored nm)) with
+      | none => none
+      | some loc =>
+        if loc <+: cwd ∨ loc = cwd ++ [ph] then none       -- an existing directory: WriteFile fails
+        else if cwd <+: loc then some (toHex (joinSlash (loc.drop cwd.length)))
+        else some (toHex ([0x5e, slash] ++ joinSlash loc)))
+    let sorted := outs.mergeSort (fun a b => !(b < a))
+    s!"stored=[{",".intercalate sorted}]"
+  | _, _ => "bad-op"
+end ConfineSim
+
 def runOp (op : String) (args : List String) : String :=
   match op, args with
   | "dec", [f] =>
@@ -405,6 +432,7 @@ def runOp (op : String) (args : List String) : String :=
     match ofHex body with
     | none => "bad-op"
     | some b => (totModel ty b).getD "skip"
+  | "confine", [_astype, phone, files, _upload] => ConfineSim.run phone files
   | "att", [_astype, _cut, files, events, _alarm] => AttSim.run files events
   | "reg", [script] => RegSim.run script
   | "act", [script] => ActSim.run script
